@@ -64,6 +64,8 @@ pub enum POp {
     UpdateTopic { expiry: ExpirySel, max_size: SizeSel },
     AddPartitions(u8),
     DelPartitions(u8),
+    /// delete ALL partitions of the topic and create this many (1..=3) new ones
+    ReplaceParts(u8),
     /// restart with another encryption setting (C19): 0 off, 1 key A, 2 key B
     RestartKey(u8),
 }
@@ -83,6 +85,10 @@ pub struct PCase {
     /// worth of data before the ops start: whatever it holds must not influence t1 (0 = no sibling)
     #[serde(default)]
     pub sibling_segs: u8,
+    /// topics WITHOUT partitions beside the topic under test (two in its stream, one in each of four other
+    /// streams): they hold nothing, so nothing about the topic under test may depend on them
+    #[serde(default)]
+    pub empty_siblings: bool,
 }
 
 /// generator profile per focus property
@@ -362,7 +368,7 @@ fn op_strategy(pr: &Profile) -> BoxedStrategy<POp> {
         ),
         (pr.w_maintain, Just(POp::Maintain).boxed()),
         (pr.w_update, (expiry_sel(pr.expiry), size_sel(pr.size_limit)).prop_map(|(expiry, max_size)| POp::UpdateTopic { expiry, max_size }).boxed()),
-        (pr.w_parts, prop_oneof![(1u8..4).prop_map(POp::AddPartitions), (1u8..4).prop_map(POp::DelPartitions)].boxed()),
+        (pr.w_parts, prop_oneof![4 => (1u8..4).prop_map(POp::AddPartitions), 4 => (1u8..4).prop_map(POp::DelPartitions), 1 => (1u8..=3).prop_map(POp::ReplaceParts)].boxed()),
         (pr.w_restart_key, (0u8..3).prop_map(POp::RestartKey).boxed()),
     ];
     let v: Vec<_> = v.into_iter().filter(|(w, _)| *w > 0).collect();
@@ -379,10 +385,35 @@ pub fn case_strategy(p: &Params) -> BoxedStrategy<PCase> {
         size_sel(pr.size_limit),
         proptest::collection::vec(op_strategy(&pr), 1..=max_ops),
         if matches!(p.property.as_str(), "C14" | "C15" | "C16") { prop_oneof![3 => Just(0u8), 2 => 1u8..=8].boxed() } else { Just(0u8).boxed() },
+        // (empty sibling topics, tiny world)
+        (
+            if matches!(p.property.as_str(), "C01" | "C02" | "C03" | "C14" | "C17") { prop_oneof![3 => Just(false), 1 => Just(true)].boxed() } else { Just(false).boxed() },
+            if matches!(p.property.as_str(), "C01" | "C03" | "C14" | "C16") && p.flavour.is_empty() { prop_oneof![5 => Just(false), 1 => Just(true)].boxed() } else { Just(false).boxed() },
+        ),
     )
         .prop_map({
             let http = p.flavour == "http";
-            move |(cfg, partitions, expiry, max_size, mut ops, sibling_segs)| {
+            let with_expiry = pr.expiry;
+            move |(mut cfg, partitions, mut expiry, max_size, mut ops, sibling_segs, (empty_siblings, tiny_world))| {
+                if tiny_world {
+                    // a "tiny world": every message fills and closes a segment of its own, batches of one or two,
+                    // everything saved at once, expiry one millisecond - the counts 0 / 1 / 2 of messages, segments
+                    // and batches, where boundary mistakes live, occur in most steps instead of in a few
+                    cfg.segment_size = 250;
+                    cfg.save_threshold = 1;
+                    if with_expiry {
+                        expiry = ExpirySel::Us(1_000);
+                    }
+                    for op in ops.iter_mut() {
+                        if let POp::Send { msgs, .. } = op {
+                            msgs.truncate(2);
+                            for m in msgs.iter_mut() {
+                                m.len = 260 + m.len % 120;
+                                m.hdr = 0;
+                            }
+                        }
+                    }
+                }
                 if http {
                     // the HTTP listener refuses request bodies above its configured `max_request_size` (2 MB):
                     // a documented limit, so sends of this flavour stay far below it
@@ -394,7 +425,7 @@ pub fn case_strategy(p: &Params) -> BoxedStrategy<PCase> {
                         }
                     }
                 }
-                PCase { cfg, partitions, expiry, max_size, ops, chaos: vec![], sibling_segs }
+                PCase { cfg, partitions, expiry, max_size, ops, chaos: vec![], sibling_segs, empty_siblings }
             }
         })
         .boxed()
